@@ -539,6 +539,13 @@ def equal(interp, a, b):
             return e.val if e.is_const else SBool(e)
         return SBool(tm.mk_eq(int_term(a), int_term(b)))
     if ka == 'str' and kb == 'str':
+        import schedula as _sh
+        ta, tb = isinstance(a, (SErr, _sh.Token)), isinstance(b, (SErr, _sh.Token))
+        if ta or tb:
+            # schedula tokens (the error values, sh.EMPTY) compare by identity, never by text
+            if ta and tb and (isinstance(a, SErr) or isinstance(b, SErr)):
+                return equal_err(interp, a, b)
+            return a is b
         if isinstance(a, SDec) and isinstance(b, SDec):
             return SBool(tm.mk_eq(a.t, b.t))
         for x, y in ((a, b), (b, a)):
